@@ -89,7 +89,7 @@ P["C06"] = dict(
 
 P["C07"] = dict(
     lean_targets=["JSight.Props.C07", "JSight.Tie.Errors"],
-    tgen=[{"cmd": ["tgen-errors"]}],
+    tgen=[{"cmd": ["tgen-errors", "{LEAN}/JSight/Generated/ErrorTable.lean"]}],
     obligations=ob("JSight.Props.C07",
         ("Props.C07.C07_json_no_crash", "JSON scanner model never reaches a runtime-panic site, all byte strings, both modes"),
         ("Props.C07.C07_render_total", "Error() rendering total inside the content")) + ob("JSight.Tie.Errors",
@@ -105,7 +105,7 @@ P["C07"] = dict(
 
 P["C08"] = dict(
     lean_targets=["JSight.Props.C08", "JSight.Tie.CMap"],
-    tgen=[{"cmd": ["tgen-cmap"]}],
+    tgen=[{"cmd": ["tgen-cmap", "{LEAN}/JSight/Generated/CMapUses.lean"]}],
     obligations=ob("JSight.Props.C08",
         ("Props.C08.C08_verdict_perm", "verdict of every order-insensitive pipeline is the same for every ordering of a duplicate-free rule set"),
         ("Props.C08.C08_lookup_perm", "the constraint map's lookup function does not depend on insertion order")) + ob("JSight.Tie.CMap",
